@@ -83,6 +83,7 @@ def monC16 : ObsMonitor Obs C16St where
              c.minFn < n ∧ c.okAtInv = none then some { ms' with seenErr := max ms.seenErr n } else none
         | .canceled => if v = 0 ∧ c.cx then some ms' else none
       | none => none
+    | .panic _ => none
     | .quiesce B =>
       if B.all (fun t => match ms.calls[t]? with
           | some c => !c.ret && !c.cx && ms.okAt.isNone && ms.fnRunning
